@@ -232,6 +232,22 @@ def r3(ctx: Ctx) -> None:
                        (isinstance(last, ast.Assign) and isinstance(last.value, ast.Constant) and last.value.value is None) or isinstance(last, (ast.Pass, ast.Continue))
                 ctx.check(good, 'C10.R3', f, f'outcome:{src(call.func)}', 'failure -> not a member / variable None', f'handler ends in {src(last)[:40]!r}', last)
     ctx.need(not (n < 3), f'C10.R3: {n} view evaluation sites found (3 confirmed)')
+    view_verdict(ctx, 'C10.R3')
+
+
+def view_verdict(ctx: Ctx, rule: str) -> None:
+    proj = ctx.proj
+    # the verdict comes from the filter: every return of evaluate_section_filter is bool(<filter evaluation>) or the handler's False
+    ef = proj.func('section_engine.evaluate_section_filter')
+    efl = get_flow(proj, ef)
+    for r in [s for s in efl.cfg.stmts() if isinstance(s, ast.Return)]:
+        in_handler = any(isinstance(a, ast.ExceptHandler) for a in ancestors(r))
+        at = efl.atoms(r.value, r) if r.value is not None else set()
+        from_filter = bool(at & {'call:evaluate_ast', 'call:evaluate', 'call:evaluate_filter'})
+        ok = from_filter or (in_handler and isinstance(r.value, ast.Constant) and r.value.value is False)
+        ctx.check(ok, rule, ef, f'verdict:{src(r.value)[:24] if r.value is not None else None}', 'membership verdict = the evaluated filter (False only when it cannot be evaluated)',
+                  f'`return {src(r.value) if r.value is not None else None}` (line {r.lineno}) decides membership without evaluating the filter: a view variable that cannot be computed '
+                  f'for a merchant must only make that variable None, not exclude the merchant', r)
 
 
 def r4(ctx: Ctx) -> None:
